@@ -37,7 +37,7 @@ func framingModel(c *CheckCtx) error {
 	return nil
 }
 
-func (c *CheckCtx) replayModel(cfg string, simulate, depth int, tag string, limit int) error {
+func (c *CheckCtx) replayModel(cfg string, simulate, depth int, tag string, limit int, apis ...string) error {
 	hs, res, err := modelHistories(c.Sc, "MC_Framing_gen.tla", cfg, simulate, depth, c.Seed)
 	if err != nil {
 		return err
@@ -52,7 +52,13 @@ func (c *CheckCtx) replayModel(cfg string, simulate, depth int, tag string, limi
 		}
 		hs = th
 	}
-	scs := scenariosFromModel(hs, c.Seed, tag)
+	if len(apis) == 0 {
+		apis = []string{"snapshot"}
+	}
+	var scs []*Scenario
+	for _, api := range apis {
+		scs = append(scs, scenariosFromModel(hs, c.Seed, tag+api[:2], api)...)
+	}
 	for _, s := range scs {
 		c.nontrivial("model:" + s.Note)
 	}
@@ -118,7 +124,7 @@ func checkC02(c *CheckCtx) error {
 	if c.thorough() {
 		cfg = "Gen_Framing_pairs6.cfg"
 	}
-	if err := c.replayModel(cfg, 0, 0, "mp", 0); err != nil {
+	if err := c.replayModel(cfg, 0, 0, "mp", 0, "snapshot", "ssnap"); err != nil {
 		return err
 	}
 	if err := c.randomFraming(c.pick(100, 2000), allAPIs, []string{"default", "ci", "color", "other", "clean"}, 0.8, "r"); err != nil {
@@ -152,7 +158,7 @@ func checkC04(c *CheckCtx) error {
 	if c.thorough() {
 		cfg = "Gen_Framing_pairs6.cfg"
 	}
-	if err := c.replayModel(cfg, 0, 0, "mp", 0); err != nil {
+	if err := c.replayModel(cfg, 0, 0, "mp", 0, "snapshot", "ssnap"); err != nil {
 		return err
 	}
 	if err := c.replayModel("Gen_Framing_sim.cfg", c.pick(400, 6000), 8, "ms", 0); err != nil {
